@@ -131,9 +131,15 @@ class UMNDirHandler(DirHandler):
                         self.fileentries.remove(hidden)
                 else:
                     self.mergeentries(fileentriesdict[linkentry.selector], linkentry)
-            elif linkentry.gettype() == "X" or linkentry.gettype() == "-":
+            elif (
+                linkentry.gettype() == "X"
+                or linkentry.gettype() == "-"
+                or linkentry.getname() is None
+            ):
                 # Hiding something that is not listed anyway (a file that
-                # was removed, or that nobody can serve): nothing to do.
+                # was removed, hidden by its .cap file, or that nobody can
+                # serve), or overriding fields of it without giving it a
+                # name: nothing to do.
                 continue
             else:
                 self.fileentries.append(linkentry)
